@@ -1,13 +1,530 @@
-import GS.Model.TaskQueue
+import GSProofs.Lemmas.TaskQueueCap
 /-!
 # C21 — Work limits are respected and every queued request eventually runs
+
+Property (properties.jsonl): "A node never runs more incoming-request traversals at once than its
+configured maximum (nor more for one peer than the per-peer maximum when set), never runs more
+outgoing request executions at once than its outgoing maximum, and every queued request that is
+not cancelled is eventually executed, even while other peers keep submitting requests."
+
+Model: `GS.TQ.Sys` (lean/GS/Model/TaskQueue.lean) = taskqueue.WorkerTaskQueue (W worker goroutines,
+wake-up signal, 100 ms tick) around the go-peertaskqueue model `GS.TQ.PTQ`.  Both graphsync queues
+(requestQueue with W = MaxInProgressOutgoingRequests, responseQueue with
+W = MaxInProgressIncomingRequests and cap = MaxInProgressIncomingRequestsPerPeer) are instances.
+All theorems quantify over every schedule: `runList (Sys.init W cap) acts` ranges over all finite
+interleavings of environment calls (PushTask, Remove) and worker steps; the "eventually" theorems
+range over all infinite weakly-fair executions (`GS.Temporal`).
+
+What is proved, what is not:
+* `global`, `per_peer`                      — safety, full strength (all W, cap, schedules).
+* `per_peer_counterexample`                 — the per-peer maximum bounds outstanding WORK; it bounds
+                                              the number of traversals only because every graphsync
+                                              task has Work = 1 (hypothesis `wfAct` of `per_peer`).
+* `no_lost_wakeup`                          — an idle worker and an eligible queued task do not
+                                              coexist forever (the tick; the signal is not needed).
+* FULL liveness ("every queued, non-cancelled request eventually executes, even while other peers
+  keep submitting") is FALSE of the model and of the code: `starvation_lasso`,
+  `starvation_tie_lasso` are infinite weakly-fair executions in which a queued task is never popped
+  (known findings `starvation-busy-peer`, `starvation-tie-break`; reproduced on the real queue by
+  corpus/C21/workers/starve-*.cases on every run).
+* `liveness_partial`                        — proved under the extra hypothesis "finitely many further
+                                              PushTask/Remove calls".  The other sufficient condition
+                                              named in DESIGN.md (fewer than W peers with a sustained
+                                              backlog) is NOT proved here.
 -/
 namespace GS.C21
-open GS.TQ
+open GS.TQ GS.Temporal
+
+/-! ## Safety -/
 
 theorem step_workers_length {s s' : Sys} {a : Act} (h : step s a = some s') :
     s'.workers.length = s.workers.length := by
   cases a <;> simp only [step] at h
   all_goals (try split at h) <;> (try split at h) <;> simp_all [Sys.popFor] <;> (try (subst h; simp))
+
+theorem runList_workers_length {s s' : Sys} {as : List Act} (h : runList s as = some s') :
+    s'.workers.length = s.workers.length := by
+  induction as generalizing s with
+  | nil => simp [runList] at h; subst h; rfl
+  | cons a as ih =>
+    simp only [runList] at h
+    split at h
+    · rename_i s1 hs1; rw [ih h, step_workers_length hs1]
+    · cases h
+
+/-- **Global limit** ("never runs more … at once than its configured maximum"): in every state
+    reachable from `Startup(W, executor)` under any interleaving of PushTask / Remove calls and
+    worker steps, at most `W` ExecuteTask invocations are in progress. -/
+theorem global (W cap : Nat) (acts : List Act) (s : Sys)
+    (h : runList (Sys.init W cap) acts = some s) : running s ≤ W := by
+  have hl := runList_workers_length h
+  have : (Sys.init W cap).workers.length = W := by simp [Sys.init]
+  rw [this] at hl
+  unfold running
+  rw [← hl]
+  exact List.length_filter_le _ _
+
+example : running ((runList (Sys.init 2 0)
+    [.push 0 ⟨0, 0, 1, 1⟩, .push 1 ⟨1, 1, 1, 1⟩, .push 1 ⟨2, 2, 1, 1⟩, .pop 0, .pop 1]).getD {}) = 2 := by
+  decide
+
+/-- **Per-peer limit** ("nor more for one peer than the per-peer maximum when set"): with
+    `MaxOutstandingWorkPerPeer(cap)`, `cap > 0`, and every pushed task of Work 1 (all PushTask calls
+    in go-graphsync), at most `cap` traversals of one peer run at once (ExecuteTask entered,
+    TaskDone not yet called), in every reachable state. -/
+theorem per_peer (W cap : Nat) (hcap : 0 < cap) (acts : List Act) (hwf : ∀ a ∈ acts, wfAct a)
+    (s : Sys) (h : runList (Sys.init W cap) acts = some s) (p : Nat) : runningFor s p ≤ cap := by
+  have hI : Inv s := (Inv.init W cap).runList h
+  have hC : CapInv s.q := (CapInv.init W cap).runList hwf h
+  have hcapeq : s.q.cap = cap := by
+    have : ∀ {s s' : Sys} {as : List Act}, runList s as = some s' → s'.q.cap = s.q.cap := by
+      intro s s' as hr
+      induction as generalizing s with
+      | nil => simp [runList] at hr; subst hr; rfl
+      | cons a as ih =>
+        simp only [runList] at hr
+        split at hr
+        · rename_i s1 hs1
+          rw [ih hr]
+          cases a with
+          | push p t =>
+            simp only [step] at hs1; split at hs1
+            · cases hs1
+            · cases hs1; exact (push_peers _ _ _).choose_spec.2.2.2.1
+          | remove p t => simp only [step] at hs1; cases hs1; exact (remove_peers _ _ _).2.1
+          | pop i =>
+            simp only [step] at hs1; split at hs1
+            · cases hs1
+              rcases pop_cases s.q 1 with ⟨_, hp⟩ | ⟨_, _, _, _, hc, _⟩
+              · show (pop s.q 1).1.cap = _; rw [hp]
+              · exact hc
+            · cases hs1
+          | sig i =>
+            simp only [step] at hs1; split at hs1
+            · split at hs1
+              · cases hs1
+                rcases pop_cases s.q 1 with ⟨_, hp⟩ | ⟨_, _, _, _, hc, _⟩
+                · show (pop s.q 1).1.cap = _; rw [hp]
+                · exact hc
+              · cases hs1
+            · cases hs1
+          | tick i =>
+            simp only [step] at hs1; split at hs1
+            · cases hs1
+              have ht := (thaw_facts s.q).2.2.2.2
+              rcases pop_cases (thaw s.q) 1 with ⟨_, hp⟩ | ⟨_, _, _, _, hc, _⟩
+              · show (pop (thaw s.q) 1).1.cap = _; rw [hp]; exact ht
+              · exact hc.trans ht
+            · cases hs1
+          | done i =>
+            simp only [step] at hs1; split at hs1
+            · cases hs1; exact (done_peers _ _ _).2.2.1
+            · cases hs1
+          | ret i =>
+            simp only [step] at hs1; split at hs1
+            · cases hs1; rfl
+            · cases hs1; rfl
+            · cases hs1
+        · cases hr
+    rw [this h]; simp [Sys.init]
+  have h1 := runningFor_le_held s.workers p
+  unfold runningFor
+  by_cases hex : ∃ tr ∈ s.q.peers, tr.id = p
+  · obtain ⟨tr, htr, hid⟩ := hex
+    have h2 := hI.elen tr htr
+    have h3 := hC.bound (by rw [hcapeq]; exact hcap) tr htr
+    rw [hid] at h2; rw [hcapeq] at h3
+    omega
+  · have := hI.enone p (fun tr htr he => hex ⟨tr, htr, he⟩)
+    omega
+
+/-- non-vacuity of `per_peer`: cap 1, three workers, two queued requests of peer 0 → exactly one
+    runs although two workers are free. -/
+example : let s := (runList (Sys.init 3 1)
+      [.push 0 ⟨0, 0, 1, 1⟩, .push 0 ⟨1, 1, 1, 1⟩, .push 1 ⟨2, 2, 1, 1⟩, .pop 0, .pop 1, .pop 2]).getD {}
+    runningFor s 0 = 1 ∧ runningFor s 1 = 1 ∧ running s = 2 := by
+  decide
+
+/-- What the cap really bounds is outstanding WORK, checked before each task is started: with
+    tasks of Work 0 (never pushed by graphsync, allowed by the library) two traversals of one peer
+    run at once under cap 1.  Hence the hypothesis `wfAct` of `per_peer`. -/
+def zeroWorkActs : List Act :=
+  [.pop 0, .pop 1, .push 0 ⟨0, 0, 1, 0⟩, .sig 0, .push 0 ⟨1, 1, 1, 0⟩, .sig 1]
+
+theorem per_peer_counterexample :
+    ∃ acts s, runList (Sys.init 2 1) acts = some s ∧ runningFor s 0 = 2 :=
+  ⟨zeroWorkActs, (runList (Sys.init 2 1) zeroWorkActs).getD {}, by decide, by decide⟩
+
+/-! ## No lost wake-up -/
+
+/-- the budgeted system never leaves the invariant when started in it -/
+theorem inv_along {σ : Nat → BSys} (hex : Exec BS σ) (h0 : Inv (σ 0).s) : ∀ n, Inv (σ n).s := by
+  intro n
+  induction n with
+  | zero => exact h0
+  | succ n ih =>
+    rcases hex n with h | ⟨a, h⟩
+    · rw [h]; exact ih
+    · exact (V_step ih h).1
+
+/-- **No lost wake-up**: take any execution of the worker pool in which the environment calls
+    PushTask / Remove only finitely often from now on (`budget`) and every worker action that stays
+    enabled is eventually taken (weak fairness; for an idle worker that is the 100 ms tick).  If at
+    some point worker `i` is idle while some peer has a queued task and is below its outstanding-work
+    cap, then later worker `i` is not idle or no such peer is left.  The wake-up signal is not used:
+    the proof goes through the ticker branch (ThawRound; PopTasks) alone, which also thaws peers
+    frozen by Remove. -/
+theorem no_lost_wakeup (σ : Nat → BSys) (hex : Exec BS σ) (hwf : WF1 BS fairAct σ)
+    (h0 : Inv (σ 0).s) (i : Nat) :
+    LeadsTo σ (fun b => idleAt i b.s ∧ eligible b.s) (fun b => ¬ (idleAt i b.s ∧ eligible b.s)) := by
+  have R : HelpfulRule BS fairAct (fun b => Inv b.s ∧ idleAt i b.s ∧ eligible b.s)
+      (fun b => ¬ (idleAt i b.s ∧ eligible b.s)) V (fun _ => Act.tick i) := by
+    refine ⟨?_, ?_, ?_⟩
+    · intro b a b' hP _ hstep
+      obtain ⟨hI', hv⟩ := V_step hP.1 hstep
+      refine ⟨?_, ?_⟩
+      · by_cases hq : idleAt i b'.s ∧ eligible b'.s
+        · exact Or.inl ⟨hI', hq⟩
+        · exact Or.inr hq
+      · rcases hv with hv | ⟨hv, _⟩
+        · exact Or.inl hv
+        · exact Or.inr ⟨hv, rfl⟩
+    · intro b hP _
+      refine ⟨rfl, ?_⟩
+      have hw : b.s.workers[i]? = some .idle := hP.2.1
+      show (bstep b (.tick i)).isSome = true
+      simp [bstep, isEnv, step, hw]
+    · intro b b' hP _ hstep
+      have hw : b.s.workers[i]? = some .idle := hP.2.1
+      have e : bstep b (.tick i) = some ⟨b.s.popFor i (thaw b.s.q), b.budget⟩ := by
+        simp [bstep, isEnv, step, hw]
+      have hstep' : bstep b (.tick i) = some b' := hstep
+      rw [e] at hstep'; cases hstep'
+      rcases tick_progress hP.1 hP.2.1 hP.2.2 with hni | hlt
+      · exact Or.inl (fun hc => hni hc.1)
+      · right; unfold V; simp only []; omega
+  intro n hP
+  exact leadsTo_of_helpful R hex hwf n ⟨inv_along hex h0 n, hP⟩
+
+/-! ## Liveness -/
+
+/-- next action of a worker that is not idle -/
+def nextAct (i : Nat) : WSt → Act
+  | .ready => .pop i
+  | .exec _ _ false _ => .done i
+  | .exec _ _ true _ => .ret i
+  | .idle => .tick i
+
+def firstBusy : List WSt → Nat → Option (Nat × WSt)
+  | [], _ => none
+  | .idle :: ws, i => firstBusy ws (i + 1)
+  | w :: _, i => some (i, w)
+
+/-- the action that makes progress: the next step of the first worker that is not idle; if all are
+    idle, the tick of worker 0 -/
+def helpful (b : BSys) : Act :=
+  match firstBusy b.s.workers 0 with
+  | some (i, w) => nextAct i w
+  | none => .tick 0
+
+theorem firstBusy_some {ws : List WSt} {k i : Nat} {w : WSt} (h : firstBusy ws k = some (i, w)) :
+    k ≤ i ∧ ws[i - k]? = some w ∧ w ≠ .idle := by
+  induction ws generalizing k with
+  | nil => simp [firstBusy] at h
+  | cons x xs ih =>
+    cases x with
+    | idle =>
+      simp only [firstBusy] at h
+      obtain ⟨h1, h2, h3⟩ := ih h
+      refine ⟨by omega, ?_, h3⟩
+      have : i - k = (i - (k + 1)) + 1 := by omega
+      rw [this]; simpa using h2
+    | ready => simp only [firstBusy] at h; cases h; exact ⟨Nat.le_refl _, by simp, by simp⟩
+    | exec p c d r => simp only [firstBusy] at h; cases h; exact ⟨Nat.le_refl _, by simp, by simp⟩
+
+theorem firstBusy_none {ws : List WSt} {k : Nat} (h : firstBusy ws k = none) : ∀ w ∈ ws, w = .idle := by
+  induction ws generalizing k with
+  | nil => intro w hw; cases hw
+  | cons x xs ih =>
+    cases x with
+    | idle =>
+      simp only [firstBusy] at h
+      intro w hw
+      rcases List.mem_cons.mp hw with rfl | hw'
+      · rfl
+      · exact ih h w hw'
+    | ready => simp [firstBusy] at h
+    | exec p c d r => simp [firstBusy] at h
+
+/-- **Liveness, partial** ("every queued request that is not cancelled is eventually executed" —
+    under the extra hypothesis that the environment makes only finitely many further PushTask /
+    Remove calls, the initial `budget` being arbitrary): in every weakly fair execution of a pool
+    with at least one worker, a task that is pending at some point is later not pending any more —
+    and a task leaves `pending` only by being popped by a worker, which then runs ExecuteTask on it
+    (`startTask`), or by Remove (cancel).  Task durations are arbitrary but finite (the executor's
+    `done` / `ret` steps are fair).  Without the hypothesis the statement is false:
+    `starvation_lasso`, `starvation_tie_lasso`. -/
+theorem liveness_partial (σ : Nat → BSys) (hex : Exec BS σ) (hwf : WF1 BS fairAct σ)
+    (h0 : Inv (σ 0).s) (hW : (σ 0).s.workers ≠ []) (u : Nat) :
+    LeadsTo σ (fun b => pendingUid u b.s = true) (fun b => pendingUid u b.s = false) := by
+  have R : HelpfulRule BS fairAct (fun b => Inv b.s ∧ b.s.workers ≠ [] ∧ pendingUid u b.s = true)
+      (fun b => pendingUid u b.s = false) V helpful := by
+    refine ⟨?_, ?_, ?_⟩
+    · intro b a b' hP _ hstep
+      obtain ⟨hI', hv⟩ := V_step hP.1 hstep
+      have hlen : b'.s.workers.length = b.s.workers.length := by
+        rcases bstep_cases hstep with ⟨_, _, _, hs⟩ | ⟨_, _, hs⟩ <;> exact step_workers_length hs
+      have hne : b'.s.workers ≠ [] := by
+        intro h; apply hP.2.1
+        have : b.s.workers.length = 0 := by rw [← hlen, h]; rfl
+        exact List.length_eq_zero_iff.mp this
+      refine ⟨?_, ?_⟩
+      · by_cases hq : pendingUid u b'.s = true
+        · exact Or.inl ⟨hI', hne, hq⟩
+        · exact Or.inr (by simpa using hq)
+      · rcases hv with hv | ⟨hv, hw⟩
+        · exact Or.inl hv
+        · exact Or.inr ⟨hv, by unfold helpful; rw [hw]⟩
+    · intro b hP _
+      unfold helpful
+      cases hfb : firstBusy b.s.workers 0 with
+      | some iw =>
+        obtain ⟨i, w⟩ := iw
+        obtain ⟨_, hget, hni⟩ := firstBusy_some hfb
+        simp only [Nat.sub_zero] at hget
+        cases w with
+        | idle => exact absurd rfl hni
+        | ready => exact ⟨rfl, by show (bstep b (.pop i)).isSome = true; simp [bstep, isEnv, step, hget]⟩
+        | exec p c d r =>
+          cases d with
+          | false => exact ⟨rfl, by show (bstep b (.done i)).isSome = true; simp [bstep, isEnv, step, hget]⟩
+          | true =>
+            refine ⟨rfl, ?_⟩
+            show (bstep b (.ret i)).isSome = true
+            cases r <;> simp [bstep, isEnv, step, hget]
+      | none =>
+        have hall := firstBusy_none hfb
+        refine ⟨rfl, ?_⟩
+        show (bstep b (.tick 0)).isSome = true
+        have : b.s.workers[0]? = some .idle := by
+          cases hws : b.s.workers with
+          | nil => exact absurd hws hP.2.1
+          | cons x xs => rw [hws] at hall; simp [hall x (by simp)]
+        simp [bstep, isEnv, step, this]
+    · intro b b' hP _ hstep
+      right
+      unfold helpful at hstep
+      cases hfb : firstBusy b.s.workers 0 with
+      | some iw =>
+        obtain ⟨i, w⟩ := iw
+        rw [hfb] at hstep
+        simp only [] at hstep
+        obtain ⟨_, _, hni⟩ := firstBusy_some hfb
+        have hnt : ∀ j, nextAct i w ≠ .tick j := by
+          intro j; cases w with
+          | idle => exact absurd rfl hni
+          | ready => simp [nextAct]
+          | exec p c d r => cases d <;> simp [nextAct]
+        have henv : isEnv (nextAct i w) = false := by
+          cases w with
+          | idle => rfl
+          | ready => rfl
+          | exec p c d r => cases d <;> rfl
+        rcases bstep_cases hstep with ⟨he, _⟩ | ⟨_, hb, hs⟩
+        · rw [henv] at he; cases he
+        · have := M_strict hP.1 henv hnt hs
+          unfold V; rw [hb]; omega
+      | none =>
+        rw [hfb] at hstep
+        simp only [] at hstep
+        have hall := firstBusy_none hfb
+        have hw0 : b.s.workers[0]? = some .idle := by
+          cases hws : b.s.workers with
+          | nil => exact absurd hws hP.2.1
+          | cons x xs => rw [hws] at hall; simp [hall x (by simp)]
+        have e : bstep b (.tick 0) = some ⟨b.s.popFor 0 (thaw b.s.q), b.budget⟩ := by
+          simp [bstep, isEnv, step, hw0]
+        have hstep' : bstep b (.tick 0) = some b' := hstep
+        rw [e] at hstep'; cases hstep'
+        -- every worker is idle, so nothing is active and the peer holding `u` is eligible
+        have hsum : ∀ p v, sumBy (heldCnt p v) b.s.workers = 0 := by
+          intro p v
+          apply sumBy_eq_zero
+          intro w hw; rw [hall w hw]; rfl
+        obtain ⟨t, ht, htu⟩ := List.any_eq_true.mp hP.2.2
+        have htp : t.pending ≠ [] := by
+          intro hnil; rw [hnil] at htu; simp at htu
+        have hta : t.active = [] := by
+          apply eq_nil_of_cntUid_zero
+          intro v
+          have := hP.1.acnt t ht v
+          rw [hsum] at this; omega
+        have hel : eligible b.s := by
+          refine ⟨t, ht, htp, ?_⟩
+          unfold Tracker.activeWork; rw [hta]
+          simp only [sumWork]; omega
+        have hstepS : step b.s (.tick 0) = some (b.s.popFor 0 (thaw b.s.q)) := by simp [step, hw0]
+        rcases tick_progress hP.1 hw0 hel with hni | hlt
+        · rcases (M_internal hP.1 rfl hstepS).2 with h1 | h1
+          · unfold V; simp only []; omega
+          · exfalso; apply hni
+            show (b.s.popFor 0 (thaw b.s.q)).workers[0]? = some .idle
+            rw [h1]; exact hw0
+        · unfold V; simp only []; omega
+  have hne : ∀ n, (σ n).s.workers ≠ [] := by
+    intro n
+    induction n with
+    | zero => exact hW
+    | succ n ih =>
+      rcases hex n with h | ⟨a, h⟩
+      · rw [h]; exact ih
+      · have hlen : (σ (n + 1)).s.workers.length = (σ n).s.workers.length := by
+          rcases bstep_cases h with ⟨_, _, _, hs⟩ | ⟨_, _, hs⟩ <;> exact step_workers_length hs
+        intro hnil; apply ih
+        have : (σ n).s.workers.length = 0 := by rw [← hlen, hnil]; rfl
+        exact List.length_eq_zero_iff.mp this
+  intro n hP
+  exact leadsTo_of_helpful R hex hwf n ⟨inv_along hex h0 n, hne n, hP⟩
+
+/-- non-vacuity: the hypotheses of `no_lost_wakeup` / `liveness_partial` hold at `Startup`. -/
+example (W cap B : Nat) (hW : 0 < W) :
+    Inv (⟨Sys.init W cap, B⟩ : BSys).s ∧ (⟨Sys.init W cap, B⟩ : BSys).s.workers ≠ [] := by
+  refine ⟨Inv.init W cap, ?_⟩
+  cases W with
+  | zero => omega
+  | succ n => simp [Sys.init, List.replicate]
+
+/-! ## Full-strength liveness is false: starvation lassos
+
+Full statement (NOT a theorem): for every weakly fair execution `σ` of the unbounded system `US`
+(arbitrary arrivals) and every `u`, `LeadsTo σ (pendingUid u · = true) (pendingUid u · = false)`.
+The two theorems below each exhibit a reachable state, a cycle of steps returning to exactly that
+state, and prove that repeating the cycle forever is a weakly fair execution along which task 9 of
+another peer stays pending.  One worker; the pattern generalises to W busy peers for W workers. -/
+
+def tk (u topic : Nat) : Task := { uid := u, topic := topic, prio := 5, work := 1 }
+
+/-- peer 0 submits three requests, peer 1 one (uid 9); worker 0 runs peer 0's first -/
+def busyPrefix : List Act :=
+  [.pop 0, .push 0 (tk 0 0), .sig 0, .push 0 (tk 1 1), .push 0 (tk 2 2), .push 1 (tk 9 9)]
+
+/-- peer 0 finishes a request, the worker pops the next one — peer 0 again, because it has 2 pending
+    against 1 — and peer 0 submits another request; three rounds return to the same state -/
+def busyCycle : List Act :=
+  [.done 0, .ret 0, .pop 0, .push 0 (tk 0 0),
+   .done 0, .ret 0, .pop 0, .push 0 (tk 1 1),
+   .done 0, .ret 0, .pop 0, .push 0 (tk 2 2)]
+
+def busyStart : Sys := (runList (Sys.init 1 0) busyPrefix).getD {}
+
+def workerActs : List Act := [.pop 0, .sig 0, .tick 0, .done 0, .ret 0]
+
+theorem fair_cover (s0 : Sys) (cyc : List Act) (hlen : (stateAt s0 cyc 0).workers.length = 1)
+    (hL : 0 < cyc.length) :
+    ∀ a, fairAct a → a ∈ workerActs ∨ ∃ k, k < cyc.length ∧ step (stateAt s0 cyc k) a = none := by
+  intro a ha
+  have hout : ∀ i, 1 ≤ i → (stateAt s0 cyc 0).workers.length ≤ i := fun i hi => by omega
+  cases a with
+  | push p t => simp [fairAct, isEnv] at ha
+  | remove p t => simp [fairAct, isEnv] at ha
+  | pop i =>
+    cases i with
+    | zero => left; simp [workerActs]
+    | succ i => right; exact ⟨0, hL, (step_none_of_index (hout _ (by omega))).1⟩
+  | sig i =>
+    cases i with
+    | zero => left; simp [workerActs]
+    | succ i => right; exact ⟨0, hL, (step_none_of_index (hout _ (by omega))).2.1⟩
+  | tick i =>
+    cases i with
+    | zero => left; simp [workerActs]
+    | succ i => right; exact ⟨0, hL, (step_none_of_index (hout _ (by omega))).2.2.1⟩
+  | done i =>
+    cases i with
+    | zero => left; simp [workerActs]
+    | succ i => right; exact ⟨0, hL, (step_none_of_index (hout _ (by omega))).2.2.2.1⟩
+  | ret i =>
+    cases i with
+    | zero => left; simp [workerActs]
+    | succ i => right; exact ⟨0, hL, (step_none_of_index (hout _ (by omega))).2.2.2.2⟩
+
+set_option maxRecDepth 100000 in
+theorem busy_ok : lassoOk busyStart busyCycle = true := by decide
+
+set_option maxRecDepth 100000 in
+theorem busy_fair : fairOk busyStart busyCycle workerActs = true := by decide
+
+set_option maxRecDepth 100000 in
+theorem busy_pending :
+    (List.range busyCycle.length).all (fun k => pendingUid 9 (stateAt busyStart busyCycle k)) = true := by
+  decide
+
+set_option maxRecDepth 100000 in
+theorem busy_reach : runList (Sys.init 1 0) busyPrefix = some busyStart := by decide
+
+/-- **Starvation (busy peer)** — counterexample to full-strength liveness.  There is an infinite
+    execution of the worker pool, starting in a state reachable from `Startup(1, executor)`, weakly
+    fair for every worker action, in which the request with uid 9 of peer 1 is pending at every
+    position: peer 0 always has two requests queued, and DefaultPeerComparator prefers, among peers
+    with equal active work, the one with MORE pending tasks. -/
+theorem starvation_lasso :
+    ∃ σ : Nat → Sys, runList (Sys.init 1 0) busyPrefix = some (σ 0) ∧ Exec US σ ∧
+      WF1 US fairAct σ ∧ ∀ n, pendingUid 9 (σ n) = true := by
+  have hL : 0 < busyCycle.length := by decide
+  refine ⟨lassoExec busyStart busyCycle, ?_, lasso_exec busy_ok hL, ?_, ?_⟩
+  · show runList _ _ = some (stateAt busyStart busyCycle (0 % busyCycle.length))
+    rw [busy_reach]; rfl
+  · exact lasso_wf1 busy_ok hL busy_fair (fair_cover busyStart busyCycle (by decide) hL)
+  · intro n
+    exact List.all_eq_true.mp busy_pending (n % busyCycle.length) (List.mem_range.mpr (Nat.mod_lt _ hL))
+
+/-- peers 0 and 1 have one request each running/queued, peer 2 one queued request (uid 9) that sits
+    in the right subtree of the heap -/
+def tiePrefix : List Act :=
+  [.pop 0, .push 0 (tk 0 0), .sig 0, .push 1 (tk 1 1), .push 2 (tk 9 9), .push 0 (tk 2 2),
+   .done 0, .ret 0, .pop 0, .push 1 (tk 0 0)]
+
+/-- peers 0 and 1 alternately finish a request and submit a new one; they swap places at the top of
+    the heap, the equally ranked peer 2 is never chosen -/
+def tieCycle : List Act :=
+  [.done 0, .ret 0, .pop 0, .push 0 (tk 1 1),
+   .done 0, .ret 0, .pop 0, .push 1 (tk 2 2),
+   .done 0, .ret 0, .pop 0, .push 0 (tk 0 0),
+   .done 0, .ret 0, .pop 0, .push 1 (tk 1 1),
+   .done 0, .ret 0, .pop 0, .push 0 (tk 2 2),
+   .done 0, .ret 0, .pop 0, .push 1 (tk 0 0)]
+
+def tieStart : Sys := (runList (Sys.init 1 0) tiePrefix).getD {}
+
+set_option maxRecDepth 100000 in
+theorem tie_ok : lassoOk tieStart tieCycle = true := by decide
+
+set_option maxRecDepth 100000 in
+theorem tie_fair : fairOk tieStart tieCycle workerActs = true := by decide
+
+set_option maxRecDepth 100000 in
+theorem tie_pending :
+    (List.range tieCycle.length).all (fun k => pendingUid 9 (stateAt tieStart tieCycle k)) = true := by
+  decide
+
+set_option maxRecDepth 100000 in
+theorem tie_reach : runList (Sys.init 1 0) tiePrefix = some tieStart := by decide
+
+/-- **Starvation (tie-break)** — second counterexample to full-strength liveness, found while
+    building the check: no peer ever has more pending tasks than the victim.  Peers 0 and 1 each
+    keep exactly one request queued; DefaultPeerComparator ranks them equal to peer 2, and the
+    binary heap (container/heap, left child preferred among equals) keeps handing the top to
+    peers 0 and 1 in turn.  Peer 2's request (uid 9) is pending at every position of a weakly fair
+    execution. -/
+theorem starvation_tie_lasso :
+    ∃ σ : Nat → Sys, runList (Sys.init 1 0) tiePrefix = some (σ 0) ∧ Exec US σ ∧
+      WF1 US fairAct σ ∧ ∀ n, pendingUid 9 (σ n) = true := by
+  have hL : 0 < tieCycle.length := by decide
+  refine ⟨lassoExec tieStart tieCycle, ?_, lasso_exec tie_ok hL, ?_, ?_⟩
+  · show runList _ _ = some (stateAt tieStart tieCycle (0 % tieCycle.length))
+    rw [tie_reach]; rfl
+  · exact lasso_wf1 tie_ok hL tie_fair (fair_cover tieStart tieCycle (by decide) hL)
+  · intro n
+    exact List.all_eq_true.mp tie_pending (n % tieCycle.length) (List.mem_range.mpr (Nat.mod_lt _ hL))
 
 end GS.C21
